@@ -421,6 +421,14 @@ static Fate gen_fate(Sim *S, int stream, uint64_t ord, uint64_t now, const Dgram
 			f.redeliv.push_back(r);
 		}
 	}
+	if (c.hold_cmd && d.data.size() > 14 && (d.data[13] | 0x20) == c.hold_cmd && (d.dst.port == 53 || d.src.port == 53)) {
+		bool ans = d.data[2] & 0x80;
+		if (c.hold_dir == 2 || (c.hold_dir == 1) == ans) {
+			f.extra_delay = c.hold_delay + S->R("fate.holdj", key, 0, 200000); S->count("fault.hold_cmd");
+			if (S->U("fate.dup", key) < c.p_dup) { f.dup = 1; f.dup_delay = S->R("fate.dupd", key, 0, 3000000); }
+			return f;
+		}
+	}
 	if (S->U("fate.drop", key) < c.p_drop) { f.drop = true; return f; }
 	if (S->U("fate.dup", key) < c.p_dup) { f.dup = 1 + (int)(S->D("fate.dupn", key) % 2); f.dup_delay = S->R("fate.dupd", key, 0, c.max_delay); }
 	if (S->U("fate.delay", key) < c.p_delay) f.extra_delay = S->R("fate.delayd", key, 1, c.max_delay ? c.max_delay : 1);
